@@ -138,6 +138,20 @@ theorem lang_13_2 (f : JO) : utf8Len (asStr (get "language".toList (mig13_2 f)))
     · rw [get_set_eq]; decide
   · rename_i h; exact Decidable.of_not_not h
 
+/-- 13.2: when the language is replaced by `und`, the localization (if there is one) has no section for `und` afterwards:
+the flow's own language has no translations of itself -/
+theorem lang_13_2_no_own_section (f l : JO) (h : utf8Len (asStr (get "language".toList f)) ≠ 3)
+    (hl : get "localization".toList f = some (.obj l)) :
+    ∃ l', get "localization".toList (mig13_2 f) = some (.obj l') ∧ get "und".toList l' = none := by
+  unfold mig13_2
+  rw [if_pos h]
+  simp only
+  have hloc : localization (set "language".toList (.str "und".toList) f) = some l := by
+    unfold localization
+    rw [get_set_ne _ _ _ (by decide), hl]
+  rw [hloc]
+  exact ⟨_, get_set_eq _ _ _, get_del_eq _ _⟩
+
 /-- 13.2: … and a language that is three bytes long is left alone, with everything else -/
 theorem lang_13_2_valid (f : JO) (h : utf8Len (asStr (get "language".toList f)) = 3) : mig13_2 f = f := by
   unfold mig13_2; rw [if_neg (fun hne => hne h)]
